@@ -336,4 +336,39 @@ theorem single_factor_flat_ddn (n m s a s1 : Nat) (T : Mat) (ha : a < m) :
   simp only [List.range_one, List.foldl_cons, List.foldl_nil, one_mul, List.getD_cons_zero]
   rw [hid]
 
+/-! ## single-basis CooperativeQLearning update = flat QLearning update on the summed reward -/
+
+theorem foldl_sum_init : ∀ (l : List Rat) (a : Rat), l.foldl (· + ·) a = a + l.foldl (· + ·) 0
+  | [], a => by simp
+  | x :: l, a => by
+    simp only [List.foldl_cons]
+    rw [foldl_sum_init l (a + x), foldl_sum_init l (0 + x)]; ring
+
+theorem coop_sum (alpha c : Rat) : ∀ (rew : List Rat),
+    ((rew.zip (List.replicate rew.length (1 : Rat))).map (fun rn => alpha * (rn.1 / rn.2 + c))).foldl (· + ·) 0
+      = alpha * rew.foldl (· + ·) 0 + (rew.length : Rat) * (alpha * c)
+  | [] => by simp
+  | r :: rew => by
+    have ih := coop_sum alpha c rew
+    simp only [List.length_cons, List.replicate_succ, List.zip_cons_cons, List.map_cons, List.foldl_cons]
+    rw [foldl_sum_init _ (0 + _), ih, foldl_sum_init rew (0 + r)]
+    push_cast
+    ring
+
+/-- **single-basis CooperativeQLearning = flat QLearning**: with one basis over all `k ≥ 1` agents (so the
+    normaliser is 1 for every agent — when it is initialised, fix C14-3) and a greedy `a1` (`Q(s1,a1) = max`),
+    the entry update equals `QLearning::stepUpdateQ` with the summed reward. -/
+theorem coop_single_basis_is_qlearning (alpha gamma q q1 : Rat) (rew : List Rat) (hk : rew ≠ []) :
+    coopUpdateSingle alpha gamma q q1 rew (List.replicate rew.length 1) = qlUpdate alpha gamma q q1 (rew.foldl (· + ·) 0) := by
+  unfold coopUpdateSingle coopPerAgent qlUpdate
+  have hn : (rew.length : Rat) ≠ 0 := by
+    have : rew.length ≠ 0 := by cases rew with | nil => exact absurd rfl hk | cons _ _ => simp
+    exact_mod_cast this
+  have e : ∀ rn : Rat × Rat, alpha * (rn.1 / rn.2 + gamma * q1 / (rew.length : Rat) + (-q) / (rew.length : Rat))
+      = alpha * (rn.1 / rn.2 + (gamma * q1 / (rew.length : Rat) + (-q) / (rew.length : Rat))) := fun rn => by ring
+  simp only [e]
+  rw [coop_sum]
+  field_simp
+  ring
+
 end AITB.Factored
